@@ -54,7 +54,10 @@ def _reject_engine_exception(e):
     if model_attr and "in1d" in msg:
         model_attr = None           # mirrored on purpose: the installed NumPy has no in1d (libcheck item 4)
     if call_mismatch or model_attr:
-        raise EngineCrash("%s: %s  [interpreter-raised while calling into the NumPy model]" % (type(e).__name__, e)) from e
+        # the code uses a NumPy attribute / keyword the MODEL does not have although NumPy does: that is "left the modelled
+        # subset" (undecided; the bounded native fallback then evaluates the same clauses on the real code), not a crash of
+        # the verifier and certainly not behaviour of the code
+        raise OutOfSubset("%s: %s  [a NumPy feature the model lacks]" % (type(e).__name__, e)) from e
     if isinstance(e, z3.Z3Exception) or isinstance(e, RecursionError) or (in_engine and not isinstance(e, _MODELLED)):
         raise EngineCrash("%s: %s  [at %s:%d]" % (type(e).__name__, e, fname, last.tb_lineno if last else -1)) from e
 
